@@ -44,7 +44,7 @@ type deadCase struct {
 func deadCases() []deadCase {
 	var out []deadCase
 	for _, k := range []string{"File", "RollingFile"} {
-		for _, s := range []string{"never-started", "start-failed", "stopped", "stopped-twice", "dir-removed", "healthy"} {
+		for _, s := range []string{"never-started", "start-failed", "stopped", "stopped-twice", "dir-removed", "healthy", "disk-full"} {
 			out = append(out, deadCase{k, s})
 		}
 	}
@@ -80,6 +80,9 @@ func deadScenario(c deadCase, b zzvrt.Bounds) *zzvrt.Scenario {
 				log.Stdout = badWriter{c.state}
 			}
 			zzvrt.Atomic(func() { x.FS.MkdirAll(rollDir) })
+			if c.state == "disk-full" {
+				x.FS.Unwritable = func(string) bool { return true } // files can be created, nothing can be written
+			}
 			switch c.state {
 			case "never-started":
 			case "stopped":
